@@ -65,6 +65,30 @@ def runOpConvert (op : String) (args : List String) : String :=
       | some r => encReport r
       | none => "OUTSIDE"
     | _, _, _ => bad
+  | "transitions_cmd", [srcfmt, words, sys, dwords, names, pwords, src] =>
+    let sy : Option TransSys := match sys with
+      | "topdown" => some .topdown | "inorder" => some .inorder | "gap" => some .gap | _ => none
+    match decSource srcfmt src, sy, decWords words, decWords dwords, decWords names, decWords pwords with
+    | some s, some sy, some ws, some dws, some ns, some pws =>
+      match TT.runTransitionsCmd ns pws sy dws ws s with
+      | some (.ok ls) => if ls.isEmpty then "EMPTY" else "|".intercalate (ls.map encS)
+      | some (.error e) => encErr e
+      | none => "OUTSIDE"
+    | _, _, _, _, _, _ => bad
+  | "grammar_cmd", [srcfmt, words, gramtype, mwords, destfmt, lig, src] =>
+    -- `--markov` absent: "n"; given: its words
+    let gt : Option GramType := match gramtype with
+      | "treebank" => some .treebank | "leftright" => some .leftright | "optimal" => some .optimal | _ => none
+    let mw : Option (Option (List Str)) := if mwords == "n" then some none else (decWords mwords).map some
+    match decSource srcfmt src, gt, decWords words, mw with
+    | some s, some gt, some ws, some mw =>
+      match TT.runGrammarCmd gt mw ws s with
+      | none => "OUTSIDE"
+      | some (.error e) => encErr e
+      | some (.ok (g, l)) =>
+        let (a, b) := if destfmt == "pmcfg" then writePmcfg (lig == "t") g l else writeRcg (lig == "t") g l
+        encLines a ++ " # " ++ (match b with | some b => encLines b | none => "none")
+    | _, _, _, _ => bad
   | "split_cmd", [srcfmt, words, destfmt, dwords, enc, names, pwords, spec, src] =>
     -- `transform ... --split spec` from the words of the command line (TT.runSplitCmd): the text of every part
     match decSource srcfmt src, destFmt? destfmt, decWords words, decWords dwords, decWords names, decWords pwords, decS spec with
